@@ -2,11 +2,13 @@
 use crate::fw::*;
 use serde_json::Value;
 
+pub mod c02;
 pub mod mapmodel;
 
 pub fn run(id: &str, tier: Tier) -> i32 {
     match id {
         "C01" | "C03" | "C04" => mapmodel::run(id, tier),
+        "C02" => c02::run(tier),
         _ => {
             eprintln!("unknown property {}", id);
             2
@@ -17,6 +19,7 @@ pub fn run(id: &str, tier: Tier) -> i32 {
 pub fn recheck(id: &str, case: &Value) -> Vec<String> {
     match id {
         "C01" | "C03" | "C04" => mapmodel::recheck(id, case),
+        "C02" => c02::recheck(case),
         _ => vec![],
     }
 }
